@@ -30,7 +30,8 @@ func (p *Parser) parseMatchAgainst(matchFunc *ast.FunctionCall) (ast.Expression,
 
 	// Consume optional mode keywords until we hit )
 	mode := ""
-	for !p.isType(models.TokenTypeRParen) && !p.isType(models.TokenTypeEOF) {
+	for !p.isType(models.TokenTypeRParen) && !p.isType(models.TokenTypeEOF) && !p.isType(models.TokenTypeSemicolon) {
+		// (an unclosed AGAINST ( ... must not swallow the statements after it)
 		mode += " " + p.currentToken.Literal
 		p.advance()
 	}
